@@ -26,7 +26,7 @@ type c07Req struct {
 // a corpus mixing transports, valid and invalid documents, operation names and Accept headers
 var c07Corpus = []c07Req{
 	{0, 0, 0, 0}, {0, 1, 2, 0}, {0, 5, 1, 0}, {0, 7, 3, 0}, {1, 0, 1, 0}, {1, 2, 2, 0}, {1, 4, 0, 0}, {1, 8, 4, 0},
-	{1, 1, 6, 0}, {2, 0, 2, 0}, {2, 7, 1, 0}, {3, 0, 5, 0}, {3, 9, 0, 0},
+	{1, 1, 6, 0}, {2, 0, 2, 0}, {2, 7, 1, 0}, {3, 0, 5, 0}, {3, 11, 0, 0}, {1, 9, 1, 0}, {0, 10, 2, 0},
 	// automatic persisted queries: a registration, and a text sent with another text's hash (must be refused, registered or not)
 	{1, 0, 1, 1}, {1, 5, 1, 2}, {1, 2, 0, 2},
 }
